@@ -28,12 +28,20 @@ class FactoryRoles:
         self.isdisabled = next((f for n, f in self.m.items() if n.lstrip("_") == "isdisabled"), None)
         self.create = next((f for n, f in self.m.items() if n.lstrip("_") == "create_filter"), None)
         self.build_condition = next((f for n, f in self.m.items() if n.lstrip("_") == "build_condition"), None)
-        self.quote = next((f for n, f in self.m.items() if "quote" in n), None) or next(
-            (f for n, f in self.mod.funcs.items() if "quote" in n), None)
+        # the quoting helper: leaves a value that comes with its own quotes alone (a startswith test), quotes anything else
+        cands = [f for n, f in list(self.m.items()) + list(self.mod.funcs.items()) if "quote" in n]
+
+        def tests_prefix(f):
+            return any(isinstance(c, ast.Call) and call_name(c) == "startswith" for c in walk_no_nested(f.node)) or any(
+                isinstance(x, ast.Subscript) and isinstance(x.slice, ast.Slice) for t in walk_no_nested(f.node) if isinstance(t, ast.If)
+                for x in ast.walk(t.test))
+        self.quote = next((f for f in cands if "necessary" in f.name), None) or next((f for f in cands if tests_prefix(f)), None) or (
+            cands[0] if cands else None)
         # methods of the class plus the private functions of its module (helpers that do not use self may live at either place)
         self.helpers = dict(self.mod.funcs)
         self.helpers.update(self.m)
         self.gen_require = next((f for n, f in self.m.items() if "gen_require" in n), None)
+        self.derive = tag_derivation_helper(self.cls, self.mod)
         if self.isdisabled is None or self.create is None:
             raise AnalysisError(rule, "FiltersSet.__isdisabled / __create_filter not found")
 
@@ -52,6 +60,22 @@ class FactoryRoles:
                         and n.attr.startswith("_") and not n.attr.endswith("__"):
                     todo.append(self.m[n.attr])
         return out
+
+
+def tag_derivation_helper(cls, mod):
+    """The function that derives, from a command's definition and a tag, the extension the tag needs: it takes (command, tag), walks
+    <command>.args_definition and looks at `extension_values`.  Whatever it is called, and whether it requires the extension itself
+    or hands it back."""
+    cands = []
+    for f in list(cls.methods.values()) + list(mod.funcs.values()):
+        own = f.params[1:] if f.cls is not None and "staticmethod" not in f.decorators else f.params
+        if len(own) < 2:
+            continue
+        src = norm(f.node)
+        if "%s.args_definition" % own[0] in src and "extension_values" in src:
+            cands.append(f)
+    named = [f for f in cands if "tag" in f.name]
+    return (named or cands or [None])[0]
 
 
 def filters_mutations(f):
